@@ -40,7 +40,7 @@ UseN(env)    == IF Directed THEN env ELSE Names
 \* the expression children of a node, in the order in which they are filled
 Kids(t) == CASE t.k = "lam" -> <<"body", "arg">>
              [] t.k = "mat" -> <<"scrut", "ba", "bb">>
-             [] t.k = "mor" -> <<"scrut", "body">>
+             [] t.k \in {"mor", "mor3"} -> <<"scrut", "body">>
              [] t.k = "ifl" -> <<"scrut", "th", "el">>
              [] t.k = "let" -> <<"init">>
              [] t.k \in {"ltup", "lstr"} -> <<"i1", "i2">>
@@ -93,6 +93,7 @@ ExprChoices(env, b) ==
         \cup { <<1, [k |-> "mat", scrut |-> Hole(env), x |-> x, ba |-> Hole(Ext(env, {x})),
                                    y |-> y, bb |-> Hole(Ext(env, {y}))]>> : x \in BindN(env), y \in BindN(env) }
         \cup { <<1, [k |-> "mor", scrut |-> Hole(env), x |-> x, body |-> Hole(Ext(env, {x}))]>> : x \in BindN(env) }
+        \cup { <<1, [k |-> "mor3", scrut |-> Hole(env), x |-> x, body |-> Hole(Ext(env, {x}))]>> : x \in BindN(env) }
         \cup { <<1, [k |-> "ifl", x |-> x, scrut |-> Hole(env), th |-> Hole(Ext(env, {x})), el |-> Hole(env)]>> :
                  x \in BindN(env) })
   \* a nested block has at least one item
@@ -120,11 +121,21 @@ Next == LET o == Open(f.body)
 
 Complete == Open(f.body).k = "none"
 
-\* [RT] on every structure of the space
-RT       == Complete => AlgEqSem(f)
+\* [RT] on every structure of the space.  While the code lacks the repair of the nested or-pattern
+\* (NestedOrFixed = FALSE, an open known finding) its walk is known to differ from the semantics on the
+\* structures that contain one: they are counted (KnownRegion), the real services are judged on them
+\* by ScopeTrace.tla.
+RT       == Complete => (AlgEqSem(f) \/ (~NestedOrFixed /\ HasMor3(f.body)))
+\* without the allowance (used once to see that the model exhibits the finding)
+RTstrict == Complete => AlgEqSem(f)
+KnownRegion == (Complete /\ ~NestedOrFixed /\ HasMor3(f.body)) =>
+                 PrintT(<<"REGION", IF AlgEqSem(f) THEN 1 ELSE 0>>)
 GenSound == (Complete /\ Directed) => WellScoped(Occ(f))
 \* always TRUE: one line per structure
 Emit == Complete => PrintT(<<"BEHAVIOUR", ToJson([t |-> f, nocc |-> Len(Occ(f))])>>)
+
+\* the ill-scoped structures of the free space (a sample is shown to the real checker: it must reject them)
+EmitIll == (Complete /\ ~WellScoped(Occ(f))) => PrintT(<<"ILL", ToJson([t |-> f])>>)
 
 \* vacuity (reported, never failing): the census of the space --
 \* well-scoped?, a name bound twice (sibling scopes)?, an or-pattern?, number of occurrences
